@@ -456,7 +456,7 @@ func cmdCheck(args []string) {
 // volatileName: structural obligations named after a source line (their names change with harmless edits of that
 // line); they are guarded by count, not by name.
 func volatileName(n string) bool {
-	for _, p := range []string{"syntax#refill-at-boundary@Parser", "syntax#bash-implies-bats@Parser", "syntax#bash-implies-bats@", "syntax#bats-only@", "syntax#recovery-only-on-error@Parser", "syntax#recovery-state@"} {
+	for _, p := range []string{"syntax#eof-exit@", "syntax#refill-retry@", "syntax#refill-at-boundary@Parser", "syntax#bash-implies-bats@Parser", "syntax#bash-implies-bats@", "syntax#bats-only@", "syntax#recovery-only-on-error@Parser", "syntax#recovery-state@"} {
 		if strings.HasPrefix(n, p) && !strings.HasSuffix(n, "-found") {
 			return true
 		}
